@@ -283,6 +283,13 @@ def families():
     F['bc_outlet']['assign'][0][3] = {'outlet_temp': 793.15}
     F['bc_delta'] = S.single(P, 0.5, power=_PW2)
     F['bc_delta']['assign'][0][3] = {'delta_temp': 135.0}
+    # ring 2 assigned by ONE assignment line spanning six positions
+    for nm, bc in (('range_flow', {'flowrate': 0.45}), ('range_outlet', {'outlet_temp': 793.15}),
+                   ('range_delta', {'delta_temp': 135.0})):
+        Fr = S.single(P, 0.5, power=_PW2)
+        Fr['assign'] = [['A', 1, 1, {'flowrate': 0.5}], ['A', 2, 1, dict(bc), 6]]
+        Fr['power'] = {'asm': {str(i + 1): dict(_PW2) for i in range(7)}}
+        F[nm] = Fr
     F['orificing'] = S.single(P, 0.5, power=_PW2)
     F['orificing']['orificing'] = dict(F['full_a']['orificing'])
     F['multiduct'] = S.single(S.design(2, ducts=2, oftf=0.07), 0.5, power=_PW2D)
@@ -313,7 +320,8 @@ def families():
 
 
 DATA_FAMILIES = ('full_a', 'full_b', 'core_min', 'setup', 'regions', 'regions_noeps', 'spacer', 'spacer_sol', 'fuelmodel',
-                 'fuelmodel_fc', 'pinmodel', 'pinmodel_fc', 'bc_outlet', 'bc_delta', 'orificing', 'multiduct', 'cold_nak')
+                 'fuelmodel_fc', 'pinmodel', 'pinmodel_fc', 'bc_outlet', 'bc_delta', 'orificing', 'multiduct', 'cold_nak',
+                 'range_flow', 'range_outlet', 'range_delta')
 SWEEP_FAMILIES = ('sw_single', 'sw_core7')
 QUICK_SWEEPS = (('cm', 'celsius', 'kg/s'), ('mm', 'fahrenheit', 'lb/min'), ('in', 'kelvin', 'lb/hr'),
                 ('ft', 'celsius', 'kg/s'), ('m', 'fahrenheit', 'kg/s'))
